@@ -360,6 +360,14 @@ impl Memfs {
         let m = opts.clone();
         let vfs = self.clone();
         entries = entries.follow(opts.follow).dirs_first().pre_op(move |x| {
+            // When following a link work with the real entry the link points to
+            let real;
+            let x = if x.is_symlink() && m.follow {
+                real = vfs.entry(x.path())?;
+                &real
+            } else {
+                x
+            };
             let m1 = sys::mode(x, m.dirs, &m.sym)?;
             if (!x.is_symlink() || m.follow) && x.is_dir() && !sys::revoking_mode(x.mode(), m1) && x.mode() != m1 {
                 let mut guard = vfs.write_guard();
@@ -373,6 +381,7 @@ impl Memfs {
         // Set permissions on the way out for everything specified
         for entry in entries {
             let src = entry?;
+            let src = if src.is_symlink() && opts.follow { self.entry(src.path())? } else { src };
 
             // Compute mode based on octal and symbolic values
             let m2 = if src.is_dir() {
